@@ -64,9 +64,10 @@ func (l *fsLoader) write(slot int, name string, v int, mt int64) error {
 	data := []byte(verSource(name, v))
 	if l.compiled {
 		// what the file records about the template it was compiled from is the same for every version (a build that
-		// normalises time stamps); the loader's time stamp is the file's
+		// normalises time stamps); the loader's time stamp is the file's.  The name recorded inside is the template's own,
+		// not the one it was saved under (what SaveCompiled of a template registered under a second name writes)
 		var err error
-		data, err = twig.SerializeCompiledTemplate(&twig.CompiledTemplate{Name: name, Source: verSource(name, v), LastModified: 1, CompileTime: 1})
+		data, err = twig.SerializeCompiledTemplate(&twig.CompiledTemplate{Name: "saved-as-" + name, Source: verSource(name, v), LastModified: 1, CompileTime: 1})
 		if err != nil {
 			return err
 		}
